@@ -43,12 +43,22 @@ theorem Circle.translate_center2x (c : Circle) (t : Pt) :
   simp only [Pt.add_x, Pt.add_y]
   omega
 
+set_option linter.unreachableTactic false in
+set_option linter.unusedTactic false in
 /-- `offset` (grow / shrink about the centre) commutes with translation. -/
 theorem Circle.offset_translate (c : Circle) (t : Pt) (o : Int) :
     (c.translate t).offset o = (c.offset o).translate t := by
   unfold Circle.offset Circle.withCenter Circle.center
   simp only [Circle.translate_boundingBox, Rect.center_translate, Rect.withCenter_translate]
-  rfl
+  -- the second alternative covers a definition of `offset` that branches on the sign of `o`
+  first
+  | rfl
+  | (split
+     · simp only [Circle.translate, Circle.mk.injEq, and_true]
+       rw [Pt.ext_iff']
+       simp only [Pt.add_x, Pt.add_y, Pt.sub_x, Pt.sub_y]
+       omega
+     · rfl)
 
 theorem Circle.translate_threshold (c : Circle) (t : Pt) : (c.translate t).threshold = c.threshold := rfl
 
